@@ -18,6 +18,6 @@ type Trial struct {
 }
 
 // Lazy operations: their first call builds a package-level table.
-var Lazy = []string{"From16", "To16"}
+var Lazy = []string{"From16", "To16", "DecodeTyped", "LineariseColor", "EncodeColor"}
 
-var All = []string{"From16", "To16", "From8To8", "LineariseColor", "EncodeColor", "LineariseImage", "EncodeImage", "ConvertImage", "Load", "Adapt", "ToXYZ"}
+var All = []string{"From16", "To16", "From8To8", "LineariseColor", "EncodeColor", "DecodeTyped", "LineariseImage", "EncodeImage", "ConvertImage", "Load", "Adapt", "ToXYZ", "Primaries"}
